@@ -325,16 +325,25 @@ Proof.
   cbn [concat]. now rewrite fold_left_app.
 Qed.
 
-Lemma link_Enc_prepare_encoding : forall I L,
-  gen_Enc_prepare_encoding I L st_init = do e <- prepare_encoding I L; Ok (tt, state_of_enc e).
+(* _prepare_encoding first empties its caches (repair recorded in known_findings.txt: an attempt aborted by the ValueError
+   left variables, qubits and machine entries behind), so from ANY state in which the encoding is not marked as prepared —
+   the constructor's, or whatever an aborted attempt left — it produces the model's encoding or the model's error. *)
+Lemma link_Enc_prepare_encoding_any : forall I L st, st_prepared st = false ->
+  gen_Enc_prepare_encoding I L st = do e <- prepare_encoding I L; Ok (tt, state_of_enc e).
 Proof.
-  intros I L. unfold gen_Enc_prepare_encoding, prepare_encoding.
+  intros I L st Hp. unfold gen_Enc_prepare_encoding, prepare_encoding. cbv zeta.
+  cbn [st_mo st_vars st_counts st_nq st_prepared]. rewrite Hp. change (mkSt [] [] [] 0 false) with st_init.
   match goal with |- bind ?X _ = _ =>
     replace X with (do js <- prep_jobs L 0 0 (inst_jobs I); Ok (fold_left add_var (concat js) st_init))
       by (symmetry; exact (prep_jobs_loop L (inst_jobs I) st_init 0%nat 0%nat eq_refl))
   end.
   destruct (prep_jobs L 0 0 (inst_jobs I)) as [js|e]; reflexivity.
 Qed.
+Print Assumptions link_Enc_prepare_encoding_any.
+
+Lemma link_Enc_prepare_encoding : forall I L,
+  gen_Enc_prepare_encoding I L st_init = do e <- prepare_encoding I L; Ok (tt, state_of_enc e).
+Proof. intros I L. now apply link_Enc_prepare_encoding_any. Qed.
 Print Assumptions link_Enc_prepare_encoding.
 
 (* n_qubits: on a fresh encoder it prepares the encoding first; afterwards it only reads the cached count *)
